@@ -302,11 +302,20 @@ def compile_and_run(text, driver, asan=False, timeout=120):
                "-llapack", "-lblas"]
         if asan:
             cmd[1:1] = ["-fsanitize=address", "-fno-omit-frame-pointer"]
-        r = subprocess.run(cmd, cwd=d, capture_output=True, text=True, timeout=timeout)
+        # a loaded machine must not turn into a finding: the compiler gets a second, much longer chance
+        try:
+            r = subprocess.run(cmd, cwd=d, capture_output=True, text=True, timeout=timeout)
+        except subprocess.TimeoutExpired:
+            r = subprocess.run(cmd, cwd=d, capture_output=True, text=True, timeout=timeout * 8)
         if r.returncode != 0:
             return {"compiled": False, "compile_log": (r.stdout + r.stderr)[-1500:]}
         env = dict(os.environ, ASAN_OPTIONS="detect_leaks=1:halt_on_error=1:exitcode=23")
-        r = subprocess.run([os.path.join(d, "runtest")], cwd=d, capture_output=True, text=True, timeout=timeout, env=env)
+        exe = [os.path.join(d, "runtest")]
+        try:
+            r = subprocess.run(exe, cwd=d, capture_output=True, text=True, timeout=timeout, env=env)
+        except subprocess.TimeoutExpired:
+            # the generated steppers take milliseconds; only a second expiry (8 x as long) counts as "does not terminate"
+            r = subprocess.run(exe, cwd=d, capture_output=True, text=True, timeout=timeout * 8, env=env)
         return {"compiled": True, "rc": r.returncode, "stdout": r.stdout, "stderr": r.stderr[-3000:]}
     finally:
         shutil.rmtree(d, ignore_errors=True)
